@@ -58,7 +58,7 @@ PLANS = {
     },
     "C04": {
         "level": "proof",
-        "sidecars": ["debump", "driver", "quatfit", "repair", "patching", "bumps", "cellproto"],
+        "sidecars": ["debump", "driver", "quatfit", "repair", "patching", "bumps", "cellproto", "tetra"],
         "extras": [{"name": "c04_torsion_rank_table", "module": "tables.x_checks", "func": "c04_torsion_ranks", "python": "vt"}],
         "explanation": "set_dihedral_angle frame + rigid rotation, debump_residue frame, option flags (call trace), "
                        "template rank table X",
@@ -153,7 +153,7 @@ PLANS = {
     },
     "C14": {
         "level": "proof",
-        "sidecars": ["cells", "cellproto", "debump", "residues", "bumps"],
+        "sidecars": ["cells", "cellproto", "debump", "residues", "bumps", "tetra"],
         "extras": [{"name": "c14_protocol", "module": "bounded.c14_protocol", "func": "run", "python": "venv"},
                    {"name": "c14_thresholds", "module": "tables.c14_thresholds", "func": "run", "python": "vt"}],
         "explanation": "contracts on Cells.add_cell/remove_cell/get_near_cells and the tiling lemma (also for re-added atoms "
